@@ -575,9 +575,376 @@ def r8_set_changes_one_value(ctx):
             bad.append("set('%s', 'NEW') on REF*A*B:C:D leaves %s, expected %s" % (rd, outs[0] if outs else 'no result', want))
     yield Ob('segment:Segment.set changes the named value and nothing else', not bad, ctx.floc(fn), '' if not bad else bad[0], note='%d designators' % len(cases))
 
+class _SelPath(object):
+    _sa_model = True
+    _sa_setattr = True
+
+    def __init__(self, loops, seg_id, qual):
+        self.loop_list = tuple(loops)
+        self.seg_id = seg_id
+        self.id_val = qual
+        self.ele_idx = None
+        self.subele_idx = None
+
+    def format(self):
+        return ('P', self.loop_list, self.seg_id, self.id_val)
+
+    def is_match_path(self, *a):
+        return False
+
+    def __hash__(self):
+        return hash(('selpath', self.loop_list, self.seg_id, self.id_val))
+
+    def __eq__(self, o):
+        return isinstance(o, _SelPath) and (self.loop_list, self.seg_id, self.id_val) == (o.loop_list, o.seg_id, o.id_val)
+
+
+class _SelMap(object):
+    _sa_model = True
+
+    def __init__(self, seg_id, qual):
+        self.id = seg_id
+        self._q = qual
+
+    def is_match_qual(self, seg_data, seg_id, qual):
+        if seg_id == self.id and (qual is None or qual == self._q):
+            return (True, self._q, 1, None)
+        return (False, None, None, None)
+
+
+class _SelChild(object):
+    _sa_model = True
+
+    def __init__(self, name, typ, cid, seg=None, qual=None):
+        self.name = name
+        self.type = typ
+        self.id = cid
+        self.seg_data = ('segdata', name)
+        self.x12_map_node = _SelMap(seg, qual) if seg else None
+        self.children = ()
+        self.parent = None
+        self.asked = []
+
+    def _select(self, p):
+        if self.type != 'loop':
+            return ()       # (a segment node has no children: nothing below it)
+        return (('below', self.name, tuple(p.loop_list), p.seg_id, p.id_val),)
+
+    def __hash__(self):
+        return hash(('selchild', self.name))
+
+    def __repr__(self):
+        return self.name
+
+
+def r9_select_semantics(ctx):
+    """what select / first / exists / count see is what X12DataNode._select yields; decided by constant propagation over a
+    node with live and deleted children: a path that is one id yields, in order, every live child segment the map node
+    matches with that id and qualifier AND every live child loop with that id (a loop id that reads like a segment id);
+    a path that starts with loop ids yields the live child loops of the first id, or - when more of the path is left -
+    what those children select for the rest of the path, the same segment id and qualifier included; a deleted child
+    is never yielded."""
+    from ..absint import run_generator, helper_oracles, NotClosedTest
+    fn = ctx.func('x12context', 'X12DataNode._select')
+    g = ctx.cfg(fn)
+
+    def kids():
+        return (_SelChild('s1', 'seg', 'NM1', 'NM1', '85'), _SelChild('gone', None, 'AK2', 'AK2', None), _SelChild('s2', 'seg', 'AK2', 'AK2', None),
+                _SelChild('l1', 'loop', 'AK2'), _SelChild('l2', 'loop', '2000'), _SelChild('s3', 'seg', 'NM1', 'NM1', '87'),
+                _SelChild('gone2', None, '2000'), _SelChild('l3', 'loop', '2000'), _SelChild('l4', 'loop', 'AK3'))
+
+    def path_oracle(t):
+        if isinstance(t, tuple) and t and t[0] == 'P':
+            return _SelPath(t[1], t[2], t[3])
+        raise A.NotClosed('path text')
+    funcs = helper_oracles(ctx, 'x12context', {'path.X12Path': path_oracle, 'X12Path': path_oracle, 'pyx12.path.X12Path': path_oracle})
+    cases = [
+        (((), 'AK2', None), ['s2', 'l1']),
+        (((), 'NM1', None), ['s1', 's3']),
+        (((), 'NM1', '87'), ['s3']),
+        (((), 'REF', None), []),
+        ((('2000',), None, None), ['l2', 'l3']),
+        ((('AK3',), None, None), ['l4']),
+        ((('2300',), None, None), []),
+        ((('2000', '2300'), None, None), [('below', 'l2', ('2300',), None, None), ('below', 'l3', ('2300',), None, None)]),
+        ((('2000',), 'NM1', '85'), [('below', 'l2', (), 'NM1', '85'), ('below', 'l3', (), 'NM1', '85')]),
+        ((('AK2', '2110'), 'REF', None), [('below', 'l1', ('2110',), 'REF', None)]),
+    ]
+    bad = []
+    for (loops, seg, qual), want in cases:
+        ch = kids()
+        try:
+            got = run_generator(g, fn, [None, _SelPath(loops, seg, qual)], funcs, env={'self.children': ch, 'self.type': 'loop', 'self.id': 'TOP'})
+        except (NotClosedTest, A.NotClosed) as e:
+            raise AnalysisError('X12DataNode._select cannot be decided for the path %s: %s' % ('/'.join(loops + ((seg,) if seg else ())), e))
+        shown = [x.name if isinstance(x, _SelChild) else x for x in got]
+        if shown != want:
+            bad.append('path %s%s on children %s yields %s, expected %s' % ('/'.join(loops + ((seg,) if seg else ())), '[%s]' % qual if qual else '',
+                       ['%s:%s:%s' % (c.name, c.type, c.id) for c in ch], shown, want))
+    yield Ob('x12context:X12DataNode._select yields the live matching segments and loops, in order', not bad, ctx.floc(fn),
+             '' if not bad else bad[0], note='%d paths' % len(cases))
+
+class _QNode(object):
+    _sa_model = True
+
+    def __init__(self, name, results=()):
+        self.name = name
+        self.id = 'NM1'
+        self.parent = 'PARENT'
+        self.type = 'seg'
+        self._results = tuple(results)
+
+    def _select(self, p):
+        return self._results
+
+    def __hash__(self):
+        return hash(('qnode', self.name))
+
+    def __repr__(self):
+        return self.name
+
+
+def r10_queries_agree(ctx):
+    """exists, count, first and select agree with one another: all four resolve the start node the same way and draw
+    from its `_select` for the parsed rest of the path; decided by constant propagation with a start node whose
+    `_select` yields 0, 1 or 3 nodes: select yields exactly those, in order; count is their number; exists is
+    "at least one"; first is the first of them, None when there is none."""
+    from ..absint import run_function, run_generator, helper_oracles, NotClosedTest
+    fe, fs, ff, fc = (ctx.func('x12context', 'X12DataNode.' + n) for n in ('exists', 'select', 'first', 'count'))
+    bad = []
+    for k in (0, 1, 3):
+        res = tuple(_QNode('n%d' % i) for i in range(k))
+        start = _QNode('start', res)
+        base = {'self._get_start_node': lambda t: (start, ('rest', t)),
+                'path.X12Path': lambda t: _SelPath(('2000',), 'NM1', None), 'X12Path': lambda t: _SelPath(('2000',), 'NM1', None)}
+        funcs = helper_oracles(ctx, 'x12context', dict(base), all_methods_of='X12DataNode')
+
+        def call(fn, gen=False, funcs=funcs):
+            try:
+                if gen:
+                    return run_generator(ctx.cfg(fn), fn, [None, '2000/NM1'], funcs, env={})
+                return run_function(ctx.cfg(fn), fn, [None, '2000/NM1'], funcs, env={})
+            except (NotClosedTest, A.NotClosed) as e:
+                raise AnalysisError('X12DataNode.%s cannot be decided with %d matching node(s): %s' % (fn.name, k, e))
+        funcs['self.exists'] = lambda t: call(fe)
+        funcs['self.select'] = lambda t: call(fs, True)
+        funcs['self.count'] = lambda t: call(fc)
+        got_s = call(fs, True)
+        got_e, got_c, got_f = call(fe), call(fc), call(ff)
+        if tuple(got_s) != res:
+            bad.append('with %d matching node(s) select yields %s' % (k, [repr(x) for x in got_s]))
+        if got_e is not (k > 0):
+            bad.append('with %d matching node(s) exists returns %r' % (k, got_e))
+        if got_c != k:
+            bad.append('with %d matching node(s) count returns %r' % (k, got_c))
+        if got_f is not (res[0] if k else None):
+            bad.append('with %d matching node(s) first returns %r' % (k, got_f))
+    yield Ob('x12context:X12DataNode exists / count / first / select agree', not bad, ctx.floc(fs), '' if not bad else bad[0], note='0, 1 and 3 matching nodes')
+
+def r11_qualified_match(ctx):
+    """a path with a bracketed qualifier (`NM1[85]`, `HL[22]`) finds the segments whose discriminating value is that
+    qualifier: segment_if.is_match_qual decided by constant propagation on the node shapes it distinguishes (first
+    element a required ID with codes, ENT, first element a composite with codes, HL, no inline codes) x qualifier asked
+    {none, a listed code, a code not listed} x value in the segment: without a qualifier every segment of the id matches;
+    with one, exactly the segments that carry it at the discriminating position (and the node lists it) match, and the
+    position reported is that one; a node without a discriminating code list matches regardless."""
+    from ..absint import run_function, helper_oracles, NotClosedTest
+    from .c02 import _MEle
+    fn = ctx.func('map_if', 'segment_if.is_match_qual')
+    hf = helper_oracles(ctx, 'map_if')
+    codes = ('A1', 'B2')
+    shapes = [
+        ('first element a required ID with codes', 'REF', lambda: (_MEle('ID', 'R', codes), _MEle('AN', 'S'), _MEle('AN', 'S')), '01', (1, None)),
+        ('ENT (second element)', 'ENT', lambda: (_MEle('N0', 'S'), _MEle('ID', 'R', codes), _MEle('AN', 'S')), '02', (2, None)),
+        ('first element a composite, first component an ID with codes', 'HI', lambda: (_MEle(kids=(_MEle('ID', 'R', codes), _MEle('AN', 'S'))), _MEle('AN', 'S'), _MEle('AN', 'S')), '01-1', (1, 1)),
+        ('HL (third element)', 'HL', lambda: (_MEle('AN', 'R'), _MEle('AN', 'S'), _MEle('ID', 'R', codes)), '03', (3, None)),
+        ('no inline codes', 'DTP', lambda: (_MEle('ID', 'R', ()), _MEle('AN', 'S'), _MEle('AN', 'S')), None, None),
+    ]
+    bad = []
+    n = 0
+    for label, sid, mk, rd, pos in shapes:
+        for qual in (None, 'A1', 'ZZ'):
+            for val in ('A1', 'B2', None):
+                for seg_id in (sid, 'XYZ'):
+                    seg = A.Model('segment', get_seg_id=lambda seg_id=seg_id: seg_id, get_value=lambda r, rd=rd, val=val: val if r == rd else 'other')
+                    try:
+                        got = run_function(ctx.cfg(fn), fn, [None, seg, seg_id, qual], hf, env={'self.id': sid, 'self.children': mk()})
+                    except (NotClosedTest, A.NotClosed) as e:
+                        raise AnalysisError('segment_if.is_match_qual cannot be decided (%s, qualifier %r): %s' % (label, qual, e))
+                    n += 1
+                    if seg_id != sid:
+                        want = (False, None, None, None)
+                    elif qual is None or pos is None:
+                        want = (True, None, None, None)
+                    elif qual in codes and val == qual:
+                        want = (True, qual, pos[0], pos[1])
+                    else:
+                        want = (False, None, None, None)
+                    if got != want and len(bad) < 3:
+                        bad.append('node %s (%s), asked for %s[%s] on a segment with %s=%r: %r, expected %r' % (sid, label, seg_id, qual, rd, val, got, want))
+    yield Ob('map_if:segment_if.is_match_qual: a qualified path matches exactly the segments carrying the qualifier', not bad, ctx.floc(fn),
+             '' if not bad else bad[0], note='%d combinations' % n)
+
+class _VPath(object):
+    """a parsed path whose parts can be stored to; format() shows the parts as they are at that moment"""
+    _sa_model = True
+    _sa_setattr = True
+
+    def __init__(self):
+        self.loop_list = ('2300', '2400')
+        self.seg_id = 'SV1'
+        self.id_val = 'HC'
+        self.ele_idx = 1
+        self.subele_idx = 2
+        self.relative = True
+
+    def format(self):
+        return ('PATH', tuple(self.loop_list), self.seg_id, self.id_val, self.ele_idx, self.subele_idx)
+
+    def __hash__(self):
+        return hash(self.format())
+
+    def __eq__(self, o):
+        return isinstance(o, _VPath) and o.format() == self.format()
+
+
+class _VSeg(object):
+    _sa_model = True
+
+    def get_value(self, rd):
+        return ('value at', rd)
+
+    def __hash__(self):
+        return hash('vseg')
+
+
+class _VStart(object):
+    _sa_model = True
+
+    def __init__(self, seg):
+        self.seg = seg
+
+    def get_first_matching_segment(self, p):
+        return self.seg if p == 'REST' else 'searched with %r' % (p,)
+
+    def __hash__(self):
+        return hash(('vstart', id(self.seg)))
+
+
+def r12_get_and_set_address_the_same_value(ctx):
+    """setting a value at a path and reading the same path returns that value: get_value and set_value of a loop node
+    resolve the start node the same way, take the first matching segment of the rest of the path FROM that node, and
+    address the element by the same designator - the segment part of the path without loops and qualifier; for a
+    segment node both hand the path to the segment unchanged.  No matching segment: get gives None, set refuses with
+    the path error.  Decided by constant propagation with a path model that shows its parts at the time it is printed."""
+    from ..absint import traces, helper_oracles, NotClosedTest
+    want_rd = ('PATH', (), 'SV1', None, 1, 2)
+    for cname in ('X12LoopDataNode', 'X12SegmentDataNode'):
+        fg, fs = ctx.func('x12context', cname + '.get_value'), ctx.func('x12context', cname + '.set_value')
+        msgs = []
+        for has_seg in (True, False):
+            seg = _VSeg() if has_seg else None
+            start = _VStart(seg)
+            funcs = helper_oracles(ctx, 'x12context', {
+                'self._get_start_node': lambda t: (start, 'REST'), 'path.X12Path': lambda t: _VPath(), 'X12Path': lambda t: _VPath(),
+                'self.get_first_matching_segment': lambda t, seg=seg: seg}, all_methods_of=cname)
+
+            def key(c):
+                r, m = A.call_target(c)
+                return 'set' if m == 'set' and r not in ('self',) else None
+            outs = {}
+            for nm, fn, env in (('get', fg, {'x12_path_str': 'ASKED'}), ('set', fs, {'x12_path_str': 'ASKED', 'val': 'NEW'})):
+                try:
+                    outs[nm] = traces(ctx.cfg(fn), env, key, funcs, returns=True)
+                except NotClosedTest as e:
+                    raise AnalysisError('%s.%s_value cannot be decided: %s' % (cname, nm, e))
+            rd = want_rd if cname == 'X12LoopDataNode' else 'ASKED'
+            gets = {tuple(a_ for a_ in tr if a_[0] == '@return') for tr, _e in outs['get']}
+            sets = {tuple(a_ for a_ in tr if a_[0] == 'set') for tr, _e in outs['set']}
+            raised = _raises_path_error(ctx, fs, funcs) if not has_seg else None
+            if has_seg:
+                if gets != {(('@return', (('value at', rd),)),)}:
+                    msgs.append('get_value returns %s, expected the value at %r of the first matching segment' % (sorted(gets, key=repr), rd))
+                if sets != {(('set', (rd, 'NEW')),)}:
+                    msgs.append('set_value stores with %s, expected one set(%r, new value) on the first matching segment - the position get_value reads' % (sorted(sets, key=repr), rd))
+            else:
+                if gets != {(('@return', (None,)),)}:
+                    msgs.append('without a matching segment get_value returns %s, expected None' % (sorted(gets, key=repr),))
+                if sets not in (set(), {()}) or not raised:
+                    msgs.append('without a matching segment set_value must refuse with X12PathError and store nothing (stores %s, raises %s)' % (sorted(sets, key=repr), raised))
+        yield Ob('x12context:%s get_value / set_value address the same element of the same segment' % cname, not msgs, ctx.floc(fs), '' if not msgs else msgs[0])
+
+
+def _raises_path_error(ctx, fn, funcs):
+    """does every way through fn (no matching segment) end in `raise ...X12PathError`"""
+    from ..absint import explore
+    g = ctx.cfg(fn)
+    ends = []
+
+    def on_node(nd, e):
+        if nd.kind == 'raise':
+            x_ = nd.ast.exc if isinstance(nd.ast, ast.Raise) else getattr(nd.stmt, 'exc', None)
+            if isinstance(x_, ast.Call):
+                x_ = x_.func
+            ends.append((path_of(x_) or '?').split('.')[-1])
+        elif nd is g.exit:
+            ends.append('returns')
+    explore(g, {'x12_path_str': 'ASKED', 'val': 'NEW'}, funcs=funcs, on_node=on_node, on_unknown=lambda nd, e: (_ for _ in ()).throw(AnalysisError('%s: %s' % (fn.name, norm(nd.ast)))))
+    return bool(ends) and set(ends) == {'X12PathError'}
+
+def r13_delete_node_exactly_one(ctx):
+    """"deleting a node removes exactly that one": delete_node decided by constant propagation with a start node whose
+    `_select` yields 0, 1 or 3 nodes - the first of them, and only that one, is told to delete itself and True is
+    answered; with none nothing is deleted and False is answered.  X12DataNode.delete (what the node then does) marks
+    the node deleted - type None - and lets go of its map node, data and children."""
+    from ..absint import traces, helper_oracles, NotClosedTest
+    fn = ctx.func('x12context', 'X12LoopDataNode.delete_node')
+    bad = []
+    for k in (0, 1, 3):
+        res = tuple(_QNode('n%d' % i) for i in range(k))
+        start = _QNode('start', res)
+        funcs = helper_oracles(ctx, 'x12context', {'self._get_start_node': lambda t: (start, ('rest', t)),
+                                                    'path.X12Path': lambda t: _SelPath(('2000',), 'NM1', None), 'X12Path': lambda t: _SelPath(('2000',), 'NM1', None)},
+                               all_methods_of='X12LoopDataNode')
+        try:
+            out = traces(ctx.cfg(fn), {'x12_path_str': 'ASKED'}, lambda c: 'delete@recv' if A.call_target(c)[1] == 'delete' else None, funcs, returns=True)
+        except NotClosedTest as e:
+            raise AnalysisError('X12LoopDataNode.delete_node cannot be decided with %d matching node(s): %s' % (k, e))
+        for tr, _e in out:
+            dels = [a_[1][0] for a_ in tr if a_[0] == 'delete@recv']
+            ret = [a_[1][0] for a_ in tr if a_[0] == '@return']
+            want_d = [res[0]] if k else []
+            if [repr(d) for d in dels] != [repr(d) for d in want_d] or ret[-1:] != [bool(k)]:
+                bad.append('with %d matching node(s): deletes %s and answers %s, expected %s and %s' % (k, dels, ret[-1:], want_d, bool(k)))
+    yield Ob('x12context:X12LoopDataNode.delete_node deletes exactly the first matching node', not bad, ctx.floc(fn), '' if not bad else bad[0])
+    fd = ctx.func('x12context', 'X12DataNode.delete')
+    from ..absint import explore
+    g = ctx.cfg(fd)
+    fin = []
+
+    def on_node(nd, e):
+        if nd is g.exit:
+            fin.append(dict(e))
+    env = {'self.type': 'loop', 'self.x12_map_node': 'MAPNODE', 'self.seg_data': 'DATA', 'self.children': ('c1', 'c2'), 'self.errors': ('e',), 'self.parent': 'P'}
+    explore(g, env, funcs=helper_oracles(ctx, 'x12context'), on_node=on_node)
+    msg = ''
+    for e in fin:
+        if e.get('self.type', 'unknown') is not None:
+            msg = 'after delete() the node type is %r, not None: every query and the serialisation still see the node' % (e.get('self.type', 'unknown'),)
+        elif e.get('self.children', 'unknown') not in ((), None):
+            msg = 'after delete() the node still holds its children %r' % (e.get('self.children', 'unknown'),)
+    if not fin:
+        raise AnalysisError('X12DataNode.delete: no outcome')
+    yield Ob('x12context:X12DataNode.delete marks the node deleted and lets go of its children', not msg, ctx.floc(fd), msg)
+
 
 RULES = [
     Rule('C10.R8', 'Segment.set decided by constant propagation: the named element / component changes, every other value stays', r8_set_changes_one_value, floor=1),
+    Rule('C10.R9', 'X12DataNode._select decided by constant propagation: live matching segments and same-id loops, rest of the path handed down', r9_select_semantics, floor=1),
+    Rule('C10.R10', 'exists, count, first and select agree (constant propagation over 0, 1, 3 matching nodes)', r10_queries_agree, floor=1),
+    Rule('C10.R11', 'segment_if.is_match_qual decided by constant propagation over node shapes x qualifier x value', r11_qualified_match, floor=1),
+    Rule('C10.R12', 'get_value and set_value address the same element of the same first matching segment (constant propagation)', r12_get_and_set_address_the_same_value, floor=2),
+    Rule('C10.R13', 'delete_node deletes exactly the first matching node; delete() marks the node and drops its children (constant propagation)', r13_delete_node_exactly_one, floor=2),
     Rule('C10.R1', 'copies own their mutable state; copied children have the copy as parent; tombstones not copied', r1_copy_ownership, floor=3),
     Rule('C10.R2', 'every children.append/insert is paired with parent = owner', r2_parent_child_pairing, floor=6),
     Rule('C10.R3', 'iterations over children skip tombstones; one tombstone marker', r3_tombstones, floor=10),
